@@ -1,6 +1,6 @@
 (** Non-vacuity for C12: readers satisfying the hypotheses, and concrete runs of the model. *)
 From Coq Require Import NArith List Lia.
-From FF Require Import Lib.Word Gen.Consts_device_acpi_aml Aml.Stream Aml.Lex Aml.LexProofs Aml.Tree Aml.TreeSpec Aml.Parser Aml.ParserProofs Aml.ParserProofsTop Aml.ParserTotalBase Aml.ParserTotalFirst Aml.ParserTotalConn Aml.ParserTotalTop.
+From FF Require Import Lib.Word Gen.Consts_device_acpi_aml Aml.Stream Aml.Lex Aml.LexProofs Aml.Tree Aml.TreeSpec Aml.Parser Aml.ParserProofs Aml.ParserProofsTop Aml.ParserTotalBase Aml.ParserTotalFirst Aml.ParserTotalConn Aml.ParserTotalTop Aml.ParserTotalNonNamed Aml.ParserTotalCalls Aml.ParserTotalReloc.
 Import ListNotations.
 Local Open Scope N_scope.
 
@@ -134,3 +134,37 @@ Example C12_passes12_runs :
   | _ => False
   end.
 Proof. vm_compute. exact I. Qed.
+
+(** ---- the last two passes ---- *)
+(** the hypotheses of the resolveMethodCalls / connectNonNamedObjArgs theorems are satisfiable (pool with a root scope:
+    no name-path-or-method-call object at all), and a concrete run of the complete ParseAML on a table with a method,
+    a forward call and an operator whose operands are attached by the last pass succeeds *)
+Example C12_last_passes_nonvacuous :
+  exists (s : pstate) (g : ghost),
+    R (p_tree s) g /\
+    (forall i o, TreeSpec.get (p_tree s) i = Some o -> o_opcode o <> opFreed -> opInfo (o_infoIndex o) <> None) /\
+    pool_ok (p_tables s) (p_tree s) /\
+    (forall i o, TreeSpec.get (p_tree s) i = Some o -> o_opcode o <> opFreed -> o_opcode o = aml_pOpIntNamePathOrMethodCall ->
+                 exists tbl sl, o_value o = Some (VBytes tbl sl)) /\
+    glive g 0 /\ groot g 0.
+Proof.
+  destruct last_passes_hyps_example as (s & g & H). exists s, g. exact H.
+Qed.
+
+Example C12_all_passes_run :
+  fst (fst (load [[0x14; 0x0b; 0x4d; 0x54; 0x48; 0x30; 0x02; 0xa4; 0x72; 0x68; 0x69; 0x00;
+                   0x08; 0x58; 0x58; 0x58; 0x58; 0x4d; 0x54; 0x48; 0x30; 0x01; 0x0a; 0x02]])) = 0.
+Proof. vm_compute. reflexivity. Qed.
+
+Example C12_relocate_nonvacuous :
+  exists (s : pstate) (g : ghost),
+    R (p_tree s) g /\
+    (forall i o, TreeSpec.get (p_tree s) i = Some o -> o_opcode o <> opFreed -> opInfo (o_infoIndex o) <> None) /\
+    pool_ok (p_tables s) (p_tree s) /\ glive g 0 /\
+    (exists o, TreeSpec.get (p_tree s) 0 = Some o /\ o_opcode o = aml_pOpIntScopeBlock).
+Proof. destruct reloc_hyps_example as (s & g & H). exists s, g. exact H. Qed.
+
+(** a table whose device is declared with a two-segment path and relocated below \_SB_ parses (all passes) *)
+Example C12_relocation_runs :
+  fst (fst (load [[0x5b; 0x82; 0x0b; 0x5c; 0x2e; 0x5f; 0x53; 0x42; 0x5f; 0x44; 0x45; 0x56; 0x32]])) = 0.
+Proof. vm_compute. reflexivity. Qed.
